@@ -30,6 +30,12 @@ def cases(tier, seed):
     for n in (1, 2, 3, 4):
         for i, r in enumerate(gen.rankings(gen.NAMES[:n], ties=True, partial=(n < 4))):
             cs.append(("expand", gen.NAMES[:n], [(r, (F(3, 2), F(3, 1000003), F(7, 999983))[i % 3])]))
+    # five and six candidates: ties of three or more followed / preceded by further ties
+    fs = lambda x: frozenset(x)
+    for i, r in enumerate([(fs("ABC"), fs("DE")), (fs("AB"), fs("CDE")), (fs("A"), fs("BCD"), fs("E")), (fs("ABC"), fs("D"), fs("EF")),
+                           (fs("AB"), fs("CD"), fs("EF")), (fs("ABCD"), fs("EF")), (fs("ABC"), fs("DEF"))]):
+        names = sorted({c for s_ in r for c in s_})
+        cs.append(("expand", names, [(r, (F(3, 2), F(1), F(7, 999983))[i % 3])]))
     # ballots that list a candidate more than once (as raw cast vote records do)
     for cands, bl in gen.profiles_exhaustive(3, 1, [F(1), F(5, 3)], ties=False):
         (r, w), = bl
